@@ -10,6 +10,8 @@ def main(tier, seed):
     ev = 1 if tier == "quick" else 2
     jobs = [("props.multi", "reload", ("C12", n, ev, 60 if tier == "quick" else 1500)) for n in QUICK]
     c.run_jobs(jobs)
+    if tier != "quick":
+        c.run_kani(['state_string_roundtrip'])
     return c.finish(
         rule="self-composition inside one path: run A completes every interrupt in order; run B does the same with the process dropped from the cache before chosen answers, so the real "
              "Cache::proc / Store::load_proc / load_tasks / Node::from_str code rebuilds it from the rows; the client-visible summaries (task outcomes per node, message multiset, events and outputs) must be equal",
